@@ -61,7 +61,9 @@ class C17Monitor(object):
                         nv0 = ctx["cur"].get(cn, (0.0,))[0]
                         if unit == unit and unit != 0:
                             pred = nv0 + (tgt - nv0) / unit
-                            slack = (1.0 if integer else 0.0) + (costs + abs(m.comm(1.0, unit)) * 2) / abs(unit) + 1e-9 * scale
+                            hs = 0.5 * (feed.get("bidoffer", m.t, cn) if feed.has("bidoffer") else 0.0) * c.multiplier
+                            # (whole units: the search may stop one unit short once more because spread / commission of the last unit do not fit)
+                            slack = (2.0 if integer else 0.0) + abs(tgt - nv0) / abs(unit) * (abs(hs) + abs(m.comm(1.0, unit))) / abs(unit) + (costs + abs(m.comm(1.0, unit)) * 2) / abs(unit) + 1e-9 * scale
                             fl["notional_gap_spent_as_cash"] = bool(abs(nv - pred) <= slack)
                     sim.violation("c17_notional_target", "%s (%s) has notional %r after Rebalance, target w x notional = %r (w=%r, base=%r)" % (cn, cls, nv, tgt, w, base), fl)
             elif cls == "Security":
